@@ -41,6 +41,7 @@ class AbstractQName(AnyAtomicType):
         elif not isinstance(value, str):
             raise cls._invalid_type(value)
 
+        value = value.strip(' \t\n\r')  # whiteSpace facet: collapse
         if namespaces is None:
             namespaces = parser.namespaces if parser is not None else {}
 
